@@ -21,14 +21,30 @@ open Mdsort Mdsort.Model
 /-- Loss-freedom under EVERY fault plan (any number of faults): whatever fails while an action
 list (move on one device or across devices, flag, flags, label, add-header, exec, in any order
 and number) is executed, after every single call some directory entry is bound to a complete
-version of the message - the bytes it had, or the completely written new version. -/
+version of the message - the bytes it had, or the completely written new version.
+
+What is proved, exactly (audit au1): `Proofs.Intact w' cs` is `∃ d n fid f, w'.lookup d n = some fid ∧ w'.file fid = some f ∧
+f.data ∈ cs` - SOME entry of SOME directory holds the bytes.  The entry is not tied to the message's own lineage: in a
+world that holds another file with the same bytes (a byte-identical duplicate) the statement is satisfied by that file
+whatever happens to the message.  The proof does track one entry (`World.GoodAt`: a file that existed at the start or that
+this run wrote completely), but the statement exported here does not say which; the lineage-exact statements are the
+single-fault ones below (`C01_single_fault_exactly_once`, `_unique`). -/
 theorem C01_no_loss (env : PEnv) (ml : MatchList) (st : ExecSt) (w : World) (orig : Bytes) (plan : Plan)
     (hs : Proofs.Start w st orig) (hd : Proofs.NoDiscard ml) :
     ∀ w' ∈ (runPlan plan (matchesExec env ml st) w 0 []).2.2, Proofs.Intact w' (Proofs.stages st.ms orig) :=
   Proofs.exec_always_intact env ml st w orig plan hs hd
 
+/-- Non-vacuity of `C01_no_loss` (the start situation and the list of the example described below: `/m/new/1.h`, move to
+`/m/cur` then label). -/
+example : Proofs.Start Proofs.exWorld Proofs.exSt Proofs.exOrig ∧ Proofs.NoDiscard Proofs.exList :=
+  ⟨Proofs.ex_startAt.start, Proofs.ex_noDiscard⟩
+
 /-- The exit status is a function of the error and reject flags only (so a failure that sets the
-error flag is always reported). -/
+error flag is always reported).
+
+(Audit au1: this is the last line of `mainP` - every path ends in `finish st = (exitStatus env st, st)` - read off the model.
+It says nothing about WHICH failures set the flag: that is `C01_fault_reported` for one action list and
+`C04_error_iff_partial` for the loops.  Same statement as the first conjunct of `C04_status_table`.) -/
 theorem C01_exit_reports_error (env : PEnv) (orc : EvalOracles) (ok : Bool) (conf : List ConfBlock) (files : Files) (input : Bytes)
     (w : World) (plan : Plan) :
     let r := (runPlan plan (mainP env orc ok conf files input) w 0 []).1
@@ -47,6 +63,18 @@ name-unique directory lists of `Start` this determines the lists up to order). -
 /-- The restriction on plans, in the terms of `Plan.count`. -/
 theorem C01_single_fault_of_count (plan : Plan) (h : ∀ n, Plan.count plan n ≤ 1) : Proofs.World.SingleFault plan :=
   Proofs.World.singleFault_of_count plan h
+
+/-- Non-vacuity: the plan that fails call 7 with `EIO` injects at most one fault among the first `n` calls, for every `n`. -/
+example : ∀ n, Plan.count (Proofs.World.singlePlan 7 (.fail "EIO")) n ≤ 1 := by
+  intro n
+  induction n with
+  | zero => decide
+  | succ n ih =>
+    rw [Proofs.World.count_succ]
+    by_cases h : n = 7
+    · subst h; decide
+    · have : (Proofs.World.singlePlan 7 (.fail "EIO") n).isSome = false := by simp [Proofs.World.singlePlan, h]
+      simp [this]; exact ih
 
 /-- Exactly once, under at most one fault (action lists without discard: move on one device or
 across devices, flag, flags, label, add-header, exec, in any order and number): after the run
@@ -74,6 +102,55 @@ theorem C01_single_fault_unique (env : PEnv) (ml : MatchList) (st : ExecSt) (w :
     ∀ q m fid f, r.2.1.lookup q m = some fid → r.2.1.file fid = some f → f.data ∈ Proofs.stages st.ms orig →
       r.1.1.ms.loc = some (q, m) :=
   Proofs.exec_single_fault_unique env ml st w orig plan hs hd hp hu
+
+/-! Non-vacuity of the hypothesis `hu` on a world with a SECOND message (added by audit au1; in the one-message world
+`Proofs.exWorld` used below `hu` holds for the trivial reason that there is no other entry): the two-message world
+`Proofs.wholeExWorldW` (`/m/new/1.h` = `A: b\n\nx`, `/m/new/2.h` = `A: c\n\ny`, `/m/new` open at handle 3), the first
+message being processed (no descriptor of its own). -/
+
+/-- The start state for the first message of the two-message world. -/
+def c01ex2_st : ExecSt := { Proofs.exSt with ms := { Proofs.exMs with fd := none } }
+
+theorem c01ex2_startAt : Proofs.StartAt Proofs.wholeExWorldW c01ex2_st Proofs.exOrig :=
+  ⟨⟨⟨3, rfl, by decide⟩, ⟨0, by decide, by decide⟩, Proofs.wholeEx_clean.noWriters, Proofs.wholeEx_clean.noStreams,
+     Proofs.wholeEx_clean.freshIds, Proofs.wholeEx_clean.uniqueNames⟩, by decide, rfl, rfl, fun _ h => by cases h⟩
+
+/-- `hu` there: the only other entry, `/m/new/2.h`, is bound to file 1 < 2, whose bytes are no version of the first message. -/
+theorem c01ex2_unique_hyp : ∀ q m fid, Proofs.wholeExWorldW.lookup q m = some fid →
+      (q, m) ≠ (c01ex2_st.src.path, c01ex2_st.ms.name) →
+      fid < Proofs.wholeExWorldW.nextFid ∧
+      ∀ f, Proofs.wholeExWorldW.file fid = some f → f.data ∉ Proofs.stages c01ex2_st.ms Proofs.exOrig := by
+  intro q m fid hl hne
+  have hmem : (q, m, fid) ∈ [(Proofs.exNew, Proofs.exName, 0), (Proofs.exNew, Proofs.wholeExName2, 1)] := by
+    unfold World.lookup World.dir at hl
+    simp only [Option.bind_eq_some_iff, Option.map_eq_some_iff] at hl
+    obtain ⟨es, ⟨d, hd, rfl⟩, e, he, rfl⟩ := hl
+    have hd1 := List.find?_some hd
+    have hdm := List.mem_of_find?_eq_some hd
+    have he1 := List.find?_some he
+    have hem := List.mem_of_find?_eq_some he
+    simp only [beq_iff_eq] at hd1 he1
+    subst hd1 he1
+    simp only [Proofs.wholeExWorldW, Proofs.wholeExWorld, List.mem_cons, List.not_mem_nil, or_false] at hdm
+    rcases hdm with rfl | rfl
+    · simp only [List.mem_cons, List.not_mem_nil, or_false] at hem
+      rcases hem with rfl | rfl <;> simp
+    · cases hem
+  simp only [List.mem_cons, List.not_mem_nil, or_false, Prod.mk.injEq] at hmem
+  rcases hmem with ⟨rfl, rfl, rfl⟩ | ⟨rfl, rfl, rfl⟩
+  · exact absurd rfl hne
+  · refine ⟨by decide, ?_⟩
+    intro f hf
+    have : f = ⟨Proofs.wholeExOrig2, Proofs.wholeExOrig2⟩ := by
+      have h' : Proofs.wholeExWorldW.file 1 = some ⟨Proofs.wholeExOrig2, Proofs.wholeExOrig2⟩ := by decide
+      rw [h'] at hf; cases hf; rfl
+    subst this
+    decide +kernel
+
+/-- All hypotheses of `C01_single_fault_unique` at once (the list of the example, `rename` failing with `EIO`). -/
+example := C01_single_fault_unique Proofs.exEnv Proofs.exList c01ex2_st Proofs.wholeExWorldW Proofs.exOrig
+  (Proofs.World.singlePlan 3 (.fail "EIO")) c01ex2_startAt Proofs.ex_noDiscard (Proofs.World.singleFault_single _ _)
+  c01ex2_unique_hyp
 
 /-- No stray file, under at most one fault: every entry that exists after the run - in
 particular every name the run created - is the message's entry (complete, by the previous
@@ -162,6 +239,17 @@ example :
         && r.1.2 == false) = true :=
   Proofs.ex_ignored_sites
 
+/-- Non-vacuity of `C01_fault_reported` / `_at` (added by audit au1; the example above only shows the EXCLUDED sites): in the
+same run, call 3 is the `renameat` of `maildir_move`; failing it with `EIO` puts a failed call that is neither an ignored site
+nor a handled errno into the trace, and `matches_exec` returns the error. -/
+example :
+    let r := runPlan (Proofs.World.singlePlan 3 (.fail "EIO")) (matchesExec Proofs.exEnv Proofs.exList Proofs.exSt)
+      Proofs.exWorld 0 []
+    (r.2.1.trace.drop Proofs.exWorld.trace.length)[3]?.map (fun x =>
+        (!Proofs.World.ignoredSite x.1 && !Proofs.World.handledErr x.1 "EIO") && x.2 == .err "EIO") = some true ∧
+      Proofs.World.singlePlan 3 (.fail "EIO") 3 = some (.fail "EIO") ∧ r.1.2 = true := by
+  decide +kernel
+
 /-- `rename` failing with `EIO` is neither ignored nor handled; `close` is ignored; `EXDEV` of `rename` is handled. -/
 example : Proofs.World.ignoredSite (.renameat 3 [49] 5 [50]) = false ∧ Proofs.World.handledErr (.renameat 3 [49] 5 [50]) "EIO" = false ∧
     Proofs.World.ignoredSite (.close 6) = true ∧ Proofs.World.handledErr (.renameat 3 [49] 5 [50]) "EXDEV" = true := by
@@ -188,6 +276,18 @@ through the main loop (Proofs/WorldWhole*.lean).
   `Proofs.WholeVersion env orc exprs c c'`: `c'` is `c` after zero or
   more such complete rewrites by rules of `exprs`, each for some answers (a message that is moved into a maildir walked
   later is processed again).
+* Scope of "any configuration": audit au1 noted that `processMessage` evaluated the rules with the constant oracles
+  `command := fun _ => -1`, `isDir := fun _ => false`, `fileTime := fun _ => none`.  Since package p4 these three fields are not
+  consulted: a `command` / `isdirectory` / file-date condition issues its calls inside the run (`Model.evalP`) and the theorems
+  quantify over their results (the fault plan / the answers `as`); `orc : EvalOracles` quantifies over the regex engine,
+  `strptime`, zone names and `time_format`.
+* "Every registered message has an entry ..." is a statement by CONTENT (`∃ d n fid f, ... WholeVersion .. c f.data`), not by
+  identity: two registered messages with the same bytes can be witnessed by one and the same entry.  The counting statements
+  are the single-fault ones above.
+* Fuel: `mainP` walks a maildir with fuel `2n+8` (`n` = registered files of its `new` and `cur`).  Under `runPlan` a directory
+  listing longer than that contains an unregistered name, which sets `error` when it is met; no theorem states that the fuel
+  is never the reason a walk ends, except `exit0_walk` under `exit0_Good` (used by `C01_main_exit0_partial`).  For the
+  loss-freedom statements a shorter walk is harmless (`C01_walk_no_loss` holds for every fuel).
 * The model-internal registry stays consistent with the world under EVERY fault plan (it is updated
   from the ghost location, which the proof shows to be exact); entries the world has and the registry
   has not (a stray copy after a failed roll-back) only set `error` (`processMessage_unknown`). -/
@@ -267,6 +367,9 @@ theorem C01_noDiscard_of_syntax (env : PEnv) (orc : EvalOracles) (expr : Expr) (
 /-- The consistency of the registry with the world, decidably. -/
 theorem C01_registry_check (w : World) (files : Files) (h : Proofs.wholeRegOk w files = true) : Proofs.WholeReg w files :=
   Proofs.whole_reg_of_ok h
+
+/-- Non-vacuity of `C01_registry_check`: the two-message world and its registry. -/
+example : Proofs.wholeRegOk Proofs.wholeExWorld Proofs.wholeExFiles = true := by decide
 
 /-! Non-vacuity on a two-message world (Proofs/WorldWholeEx.lean): `/m/new/1.h` = `A: b\n\nx`,
 `/m/new/2.h` = `A: c\n\ny`, configuration `maildir "/m" { match all flag "cur" label "x" }`. -/
@@ -361,6 +464,23 @@ example : (∃ ml msgs fl, Proofs.verdict Proofs.exEnv Proofs.wholeExOrc Proofs.
   | error => rw [h] at hacts; cases hacts
   | interpFail => rw [h] at hacts; cases hacts
 
+/-- The remaining hypothesis `he` of `C01_message_exit0` (added by audit au1; evaluated for the rule `match all flag "cur"`,
+whose verdict on the first message is an action list as well): without a fault, and with the `fstatat` of `maildir_move`
+(call 4, an ignored site: F17d) failing, `processMessage` returns without the error flag; with the `renameat` failing it
+returns WITH it - so `he` separates runs. -/
+example :
+    (runPlan Plan.none (processMessage Proofs.exEnv Proofs.wholeExOrc
+      (.mtch 1 (.all 1) (.flag 1 [99, 117, 114])) Proofs.exMd Proofs.exName Proofs.wholeExSt) Proofs.wholeExWorldW 0 []).1.1.error = false ∧
+    (runPlan (Proofs.World.singlePlan 4 (.fail "EIO")) (processMessage Proofs.exEnv Proofs.wholeExOrc
+      (.mtch 1 (.all 1) (.flag 1 [99, 117, 114])) Proofs.exMd Proofs.exName Proofs.wholeExSt) Proofs.wholeExWorldW 0 []).1.1.error = false ∧
+    ((runPlan (Proofs.World.singlePlan 4 (.fail "EIO")) (processMessage Proofs.exEnv Proofs.wholeExOrc
+      (.mtch 1 (.all 1) (.flag 1 [99, 117, 114])) Proofs.exMd Proofs.exName Proofs.wholeExSt) Proofs.wholeExWorldW 0 []).2.1.trace[4]?.map
+        fun x => x.2 == .err "EIO") = some true ∧
+    (runPlan (Proofs.World.singlePlan 6 (.fail "EIO")) (processMessage Proofs.exEnv Proofs.wholeExOrc
+      (.mtch 1 (.all 1) (.flag 1 [99, 117, 114])) Proofs.exMd Proofs.exName Proofs.wholeExSt) Proofs.wholeExWorldW 0 []).1.1.error = true := by
+  simp only [processMessage, evalP, evalTop, evalT, eval]
+  decide +kernel
+
 /-- Why "exactly once" / "no stray" / "final place" are single-fault statements while loss-freedom is
 not: with TWO faults - `match all flag "cur"` on the first message of the example, the `renameat`
 (call 6) and the roll-back `unlinkat` of the placeholder (call 7) both failing with `EIO` - the run sets
@@ -442,6 +562,12 @@ theorem C01_good_of_outside (C : Proofs.exit0_Ctx) (h1 : (C.dirs.map (·.1)).Nod
     Proofs.exit0_Good C :=
   Proofs.exit0_good_of_outside h1 h2 h3 h4
 
+/-- Non-vacuity of `C01_good_of_outside`: `Proofs.exit0_ex_good` (Proofs/WorldExitEx.lean) is proved through it - the four
+hypotheses hold for `maildir "/m" { match all move "/y" }` on the two-message registry (`h4`: both verdicts evaluated,
+destination `/y/new`, which is not configured). -/
+example : Proofs.exit0_Good ⟨Proofs.exEnv, Proofs.wholeExOrc, Proofs.exit0_dirsOf Proofs.exit0_exConf, Proofs.wholeExFiles,
+    Proofs.wholeExWorld⟩ := Proofs.exit0_ex_good
+
 /-- Non-vacuity of `C01_main_exit0_partial`: the two-message example with `maildir "/m" { match all move "/y" }`
 (both messages are sent to `/y/new`, which is not configured): maildir mode, real run, no discard, consistent
 registry, `exit0_Good`; the fault-free plan has at most one fault. -/
@@ -453,6 +579,26 @@ example : Proofs.exEnv.stdinMode = false ∧ Proofs.exEnv.syntaxOnly = false ∧
       Proofs.wholeExWorld⟩ ∧
     Proofs.World.SingleFault Plan.none :=
   ⟨rfl, rfl, rfl, by decide, Proofs.exit0_ex_nd, Proofs.wholeEx_reg, Proofs.exit0_ex_good, Proofs.World.singleFault_none⟩
+
+/-- **Audit au1: the example above does NOT satisfy the remaining hypothesis `h0`.**  In `Proofs.wholeExWorld` the
+destination `/y/new` does not exist, so the fault-free run of that configuration fails to open it and ends with exit
+status 1 (evaluated) - on that world the theorem is vacuous. -/
+example : (runPlan Plan.none (mainP Proofs.exEnv Proofs.wholeExOrc true Proofs.exit0_exConf Proofs.wholeExFiles [])
+    Proofs.wholeExWorld 0 []).1.1 = 1 := by
+  rw [(Proofs.dry_runNone_eq (mainP Proofs.exEnv Proofs.wholeExOrc true Proofs.exit0_exConf Proofs.wholeExFiles [])
+    Proofs.wholeExWorld 0 []).1, Proofs.Own.mainP_eq]
+  unfold Proofs.Own.mainK
+  simp only [Proofs.exit0_exConf, Proofs.Own.blocks_cons, Proofs.Own.blocks_nil, Proofs.Own.paths_cons, Proofs.Own.paths_nil,
+    Proofs.dry_walk_G _ _ Proofs.exit0_exExpr (by decide)]
+  simp only [Proofs.exit0_exExpr, eval]
+  decide +kernel
+
+/-- Complete non-vacuity of `C01_main_exit0_partial`, exit status included: the same configuration and registry on
+`Proofs.dry_f21World2` (the two-message world WITH `/y/new` and `/y/cur`): every hypothesis holds (`Proofs.dry_ex_runs.1`
+is the evaluated exit status 0), so both messages are placed in `/y/new`. -/
+example := C01_main_exit0_partial Proofs.exEnv Proofs.wholeExOrc true Proofs.exit0_exConf Proofs.wholeExFiles []
+    Proofs.dry_f21World2 Plan.none rfl rfl rfl (by decide) Proofs.exit0_ex_nd Proofs.dry_f21_reg2 Proofs.dry_ex_good
+    Proofs.World.singleFault_none Proofs.dry_ex_runs.1
 
 /-- The full statement without the side condition on the rules (`norev`) - kept as a named proposition:
 exit status 0 of a real run with at most one fault, rules without discard, implies that every registered
